@@ -2,6 +2,7 @@ import VaxisModel.Driver.Common
 import VaxisModel.Model.Lifecycle
 import VaxisModel.Spec.ModeTerm
 import VaxisModel.Spec.Tokenize
+import VaxisModel.Lemmas.C07Gate
 
 /-! Driver for C04 (stateful; one case = one Vaxis session on the fake console). Lines:
 
@@ -71,6 +72,17 @@ def describe (t0 t : MTerm) : String :=
 def restoredVerdict (t0 t : MTerm) : String :=
   if restored t0 t then "ok" else "FAIL not restored:" ++ describe t0 t
 
+/-- C07 on the implementation: the first token (after the device-attributes reply, for start-up)
+    that is neither baseline nor gated by an advertised capability. -/
+def gate (e : Env) (toks : List Tok) (v : String) : String :=
+  match toks.find? (fun k => !VaxisModel.Lemmas.C07Gate.allowedLife e k) with
+  | some k => s!"FAIL not advertised: {tokStr k} is written although the capability set does not allow it"
+  | none => v
+
+/-- Tokens of start-up written after the last DA1 query (`CSI c`), i.e. once the capabilities are known. -/
+def afterDA1 (toks : List Tok) : List Tok :=
+  (toks.reverse.takeWhile (· != Tok.other "1b5b63")).reverse
+
 def sameModes (a b : MTerm) : Bool :=
   (a.modes.all fun (n, v) => modeVal b n == v) && (b.modes.all fun (n, v) => modeVal a n == v) &&
   a.alt == b.alt && a.kitty == b.kitty && a.keypadApp == b.keypadApp
@@ -103,7 +115,7 @@ def step (s : St) (line : String) : St × String :=
         let w := startupW s.env
         let c := canon w.wire itoks
         let t := ModeTerm.run s.t itoks
-        ({ s with w := { w with wire := [] }, t := t, tStart := t }, s!"{c.1}\t{c.2}\t-")
+        ({ s with w := { w with wire := [] }, t := t, tStart := t }, s!"{c.1}\t{c.2}\t{gate s.env (afterDA1 itoks) "ok"}")
       | none => (s, bad3)
   | ["bytes"] =>
       match lex impl with
@@ -117,7 +129,7 @@ def step (s : St) (line : String) : St × String :=
         let w := suspendW s.env { s.w with wire := [], cn := cn, cl := { cn with visible := b clv } }
         let c := canon w.wire itoks
         let t := ModeTerm.run s.t itoks
-        ({ s with w := { w with wire := [] }, t := t }, s!"{c.1}\t{c.2}\t{restoredVerdict s.t0 t}")
+        ({ s with w := { w with wire := [] }, t := t }, s!"{c.1}\t{c.2}\t{gate s.env itoks (restoredVerdict s.t0 t)}")
       | none => (s, bad3)
   | ["resume"] =>
       match lex impl with
@@ -125,7 +137,7 @@ def step (s : St) (line : String) : St × String :=
         let w := resumeW s.env { s.w with wire := [] }
         let c := canon w.wire itoks
         let t := ModeTerm.run s.t itoks
-        let v := if sameModes t s.tStart then "ok" else "FAIL modes after Resume differ from start-up:" ++ describe s.tStart t
+        let v := gate s.env itoks (if sameModes t s.tStart then "ok" else "FAIL modes after Resume differ from start-up:" ++ describe s.tStart t)
         ({ s with w := { w with wire := [] }, t := t }, s!"{c.1}\t{c.2}\t{v}")
       | none => (s, bad3)
   | ["close", cnv, clv, closed, row, col, sty] =>
